@@ -56,6 +56,13 @@ impl<'i, 't, 'a> StepParser<'i, 't, 'a> {
                     && r.unwrap().position == old(self).items@[final(self).cur@].pos,
             final(self).cur@ >= old(self).items@.len() ==> r.is_err(),
     { unimplemented!() }
+    /// cssparser::Parser::is_exhausted (through Deref): true when only whitespace / comments are left in the current block;
+    /// the cursor is put back (A5)
+    #[verifier::external_body]
+    fn is_exhausted(&mut self) -> (r: bool)
+        requires old(self).wf(),
+        ensures *final(self) == *old(self), r == (first_non_ws(old(self).items@, old(self).cur@) >= old(self).items@.len()),
+    { unimplemented!() }
     /// StepParser::position (proved in unit STEP): where the next token starts
     #[verifier::external_body]
     fn position(&self) -> (r: Position)
